@@ -81,6 +81,10 @@ Fixpoint choose_exec (weighted : bool) (cands : list (key * Q)) (ds : list Q) (t
    population rotated by the draw: enough to reach every starting element *)
 Definition rotate {A} (n : nat) (l : list A) : list A := skipn n l ++ firstn n l.
 
+(* a scripted draw is a possible value of random(): 0 <= d < 1; of expovariate: 0 <= d.
+   A script with anything else is invalid and reported as OutOfDraws. *)
+Definition unit_draw (d : Q) : bool := negb (Qltb d 0) && Qltb d 1.
+
 Fixpoint exec {A} (m : samp A) (ds : list Q) (tr : list call) : result A * list call :=
   match m with
   | Ret a => (Ok a, rev tr)
@@ -89,17 +93,23 @@ Fixpoint exec {A} (m : samp A) (ds : list Q) (tr : list call) : result A * list 
     if Qeqb r 0 then (Err ZeroDivision, rev (CExpo r :: tr))
     else match ds with
          | [] => (Err OutOfDraws, rev tr)
-         | d :: ds' => exec (k d) ds' (CExpo r :: tr)
+         | d :: ds' =>
+           if Qltb d 0 then (Err OutOfDraws, rev tr)       (* not a value of expovariate *)
+           else exec (k d) ds' (CExpo r :: tr)
          end
   | Flip p kt kf =>
     match ds with
     | [] => (Err OutOfDraws, rev tr)
-    | d :: ds' => exec (if Qltb d p then kt else kf) ds' (CFlip p :: tr)
+    | d :: ds' =>
+      if unit_draw d then exec (if Qltb d p then kt else kf) ds' (CFlip p :: tr)
+      else (Err OutOfDraws, rev tr)                       (* not a value of random() *)
     end
   | Casc ps k =>
     match ds with
     | [] => (Err OutOfDraws, rev tr)
-    | d :: ds' => exec (k (casc_index ps d 0)) ds' (CCasc ps :: tr)
+    | d :: ds' =>
+      if unit_draw d then exec (k (casc_index ps d 0)) ds' (CCasc ps :: tr)
+      else (Err OutOfDraws, rev tr)
     end
   | Choose w c k =>
     match choose_exec w c ds tr with
